@@ -597,8 +597,16 @@ fn seq_op(w: &mut World, accepted: &mut u32, refused: &mut u32, drops: &mut u32)
             let (H::Atomic(a, obj), H::Map(m, l)) = (w.hs[ai].as_ref().unwrap(), w.hs[mi].as_ref().unwrap()) else { unreachable!() };
             let (obj, m2, l2) = (*obj, m.clone(), l.clone());
             let without = cx().a(4) == 0;
+            if cx().a(6) == 0 {
+                // an earlier updater failed while holding the lock: it is poisoned from now on
+                let _ = catch(|| {
+                    let _g = a.lock().unwrap_or_else(|e| e.into_inner());
+                    panic!("updater failed while holding the update lock");
+                });
+                cx().count("fault.updater_panics_holding_the_lock");
+            }
             let r = catch(|| {
-                let g = a.lock().unwrap();
+                let g = a.lock().unwrap_or_else(|e| e.into_inner());
                 if without {
                     drop(g)
                 } else {
@@ -777,7 +785,7 @@ impl Scenario for Conc {
         let panics: RefCell<Vec<String>> = RefCell::new(Vec::new());
         // per-actor programs are drawn up front (workload section of the tape)
         let rprog: Vec<Vec<u32>> = (0..nread).map(|_| (0..1 + cx().a(4)).map(|_| cx().a(6)).collect()).collect();
-        let uprog: Vec<Vec<(u32, u32)>> = (0..nupd).map(|_| (0..1 + cx().a(3)).map(|_| (cx().a(5), cx().a(4))).collect()).collect();
+        let uprog: Vec<Vec<(u32, u32)>> = (0..nupd).map(|_| (0..1 + cx().a(3)).map(|_| (cx().a(7), cx().a(4))).collect()).collect();
         {
             let mut bodies: Vec<Box<dyn FnOnce() + '_>> = Vec::new();
             for (ai, prog) in rprog.iter().enumerate() {
@@ -854,7 +862,22 @@ impl Scenario for Conc {
                         for &(op, slot) in prog {
                             let t0 = cx().events.len();
                             cx().op_begin(actor as u64);
-                            let guard = handle.lock().unwrap();
+                            // a poisoned update lock is recovered the documented way
+                            let guard = handle.lock().unwrap_or_else(|e| {
+                                cx().count("probe.poisoned_lock_recovered");
+                                e.into_inner()
+                            });
+                            if op == 6 {
+                                // the updater fails while it holds the lock: the lock is released and poisoned
+                                cx().count("fault.updater_panics_holding_the_lock");
+                                let r = catch(move || {
+                                    let _g = guard;
+                                    panic!("updater failed while holding the update lock");
+                                });
+                                let _ = r;
+                                cx().op_end(actor as u64, 0);
+                                continue;
+                            }
                             if op == 0 {
                                 // take the lock and give it back without replacing
                                 cx().count("probe.guard_dropped_without_replace");
